@@ -76,7 +76,7 @@ def engine_history(rng, n_runs: int) -> tuple[list[list], dict]:
 
     def send(op):
         nonlocal registered
-        if rng.random() < 0.12:              # the other engine does something in between
+        if rng.random() < 0.2:               # the other engine does something in between
             ops.append(rng.choice([["o-register"], ["o-start", 7], ["o-tags", 7, t], ["o-stop", 7], ["o-disconnect"],
                                    ["o-tags", None, t]]))
         if registered:
@@ -177,10 +177,14 @@ def oracle(case: dict, trace: list[tuple[list, str, dict]]) -> list[Failure]:
     for (op, reply, f) in trace:
         kind = op[0]
         if kind.startswith("o-"):            # the other engine: must not touch anything of ours
-            for k in ("registered", "run", "values", "logs", "recent"):
-                if f[k] != prev[k]:
+            for k in ("registered", "run", "values", "logs", "recent", "row"):
+                if k in prev and f[k] != prev[k]:
                     fails.append(Failure("message-of-another-engine-changed-this-engine", case,
                                          f"{op}: {k} {prev[k]} -> {f[k]}"))
+            # …and the other engine must not take over a run of ours (its own runs are called orun-*)
+            if f.get("other_run") is not None and not str(f["other_run"]).startswith("orun-"):
+                fails.append(Failure("run-adopted-by-another-engine", case,
+                                     f"{op}: the other engine is now in run {f['other_run']}, a run of this engine"))
             prev = f
             continue
         # (1) continuity
@@ -274,6 +278,15 @@ def run(ctx: Check) -> int:
     cases += [{"ops": ops} for ops in exhaustive(eight, ctx.n(3, 4), [["register"], ["start", 1]])]   # inside a run
     cases += [{"ops": ops} for ops in exhaustive(six, ctx.n(2, 3), [])]             # histories that start unregistered
     cases += [{"ops": ops} for ops in exhaustive(nine, ctx.n(2, 3), [["register"], ["start", 1]])]
+    # the engine starts the next run without a stop of the current one (the current one is stored, the next becomes
+    # active), then the aggregator restarts or dies
+    supersede = [["start", 2], ["crash"], ["restart"], ["register"], ["tags", 2]]
+    cases += [{"ops": ops} for ops in exhaustive(supersede, ctx.n(3, 4), [["register"], ["start", 1]])]
+    # a second engine whose id matches ours as a LIKE / case-insensitive pattern registers and disconnects during our run
+    rivals = [["register"], ["crash"], ["o-register"], ["o-disconnect"]] + ([["stop", 1]] if ctx.tier == "thorough" else [])
+    for nm in ((3, 4, 5, 1, 2) if ctx.tier == "thorough" else (3, 5)):
+        cases += [{"ops": ops, "name": nm, "interval": 0, "epoch": 0}
+                  for ops in exhaustive(rivals, ctx.n(4, 5) if nm == 3 else ctx.n(3, 4), [["register"], ["start", 1]])]
     if ctx.tier == "thorough":                          # the run starts while the engine still reports Stopped
         cases += [{"ops": ops} for ops in exhaustive(eight, 3, [["register"], ["tags", None, 0], ["start", 1]])]
     n_exh = len(cases) - n_corpus
@@ -285,7 +298,7 @@ def run(ctx: Check) -> int:
     # the engine's name (engine id), its log interval and its clock vary from case to case
     for k, c in enumerate(cases):
         if "name" not in c:
-            c["name"] = k % 3
+            c["name"] = k % 6
             c["interval"] = [0, 0, 2, 5][(k // 3) % 4] if (c.get("protocol") or k % 2) else 0
             c["epoch"] = 1_700_000_000 if k % 5 == 0 else 0
     ctx.extra["histories"] = {"corpus": n_corpus, "exhaustive": n_exh,
@@ -299,8 +312,10 @@ def run(ctx: Check) -> int:
                 "Stopped after RunStarted) or leads (Stopped before RunStopped) the run messages; engine-protocol histories "
                 "(1-3 runs, increasing tick times, refused messages re-sent after re-registration, duplicate "
                 "RunStarted) with disconnect / restart / both at every point; random histories with stale ids, "
-                "decreasing times, messages to an unregistered engine. Engine name (3 ids), log interval (0/2/5), clock epoch "
-                "and interleaved messages of a second engine vary over the cases. Non-trivial = the engine is registered again "
+                "decreasing times, messages to an unregistered engine. Engine name (6 pairs of ids of the observed and a second "
+                "engine, among them pairs that match each other as LIKE / case-insensitive patterns), log interval "
+                "(0/2/5), clock epoch and interleaved messages of the second engine vary over the cases; all histories of "
+                "length 3-4 (thorough 4-5) over {register, crash, other engine registers, other engine disconnects} (thorough also stop) during a run. Non-trivial = the engine is registered again "
                 "after a disconnect or restart that happened during a run.")
 
     h = ReconnHarness()
@@ -354,7 +369,7 @@ def run(ctx: Check) -> int:
     ctx.exhaustive = True
     ctx.assumptions = ["restart = Aggregator.shutdown() then a new process; crash = a new process without shutdown; both on "
                        "the same database",
-                       "one observed engine (three names), a second engine as noise; registration is the accepted path "
+                       "one observed engine, a second engine (with an adversarially similar id) as noise; registration is the accepted path "
                        "and is followed by the engine's UodInfoMsg (log interval 0, 2 or 5)",
                        "database writes succeed (in-memory SQLite); SQLAlchemy is modelled as row lists",
                        "exhaustive up to the stated lengths; longer histories are sampled"]
